@@ -12,7 +12,7 @@ class C02(Prop):
     MODEL_NEEDS_IMPL = True
     WORKERS = 10
     LEVEL_TEXT = "Lean 4 refinement theorems for each backend model B in {sqlite, memory, peewee}: refines_B / history_refines_B (the view after every operation of every history that respects the property's precondition is a step of the per-bucket list model), replaceLast_hits_limit1_B, delete_exact_B, no_live_id_reuse_B, lookup_by_id_B, backends_interchangeable, backends_equal_events; models compared with the real backends after every write of random histories (public Bucket API, re-used Event objects, tied instants)"
-    LEVEL_NOTE = 'trusts: Lean kernel + 3 standard axioms; SQL statement semantics as modelled statement by statement (validated differentially); hypothesis on the sqlite read conjunct: the rewritten event ends at or after 1970 (counterexample proved)'
+    LEVEL_NOTE = 'trusts: Lean kernel + 3 standard axioms; SQL statement semantics as modelled statement by statement (validated differentially); the sqlite read conjunct of replaceLast_hits_limit1_sqlite is unconditional since the repair F22 (a read without a start bound has no lower bound; the former pre-1970 counterexample is now read)'
     TECHNIQUE = "Lean 4 refinement proof (backend tables -> per-bucket lists) + differential correspondence on random histories"
     RULE = (
         "seeded random histories over two buckets sharing one database (timestamps on an 8-point grid so that start "
